@@ -167,6 +167,12 @@ def case_special_plane(draw, kK, recipe):
 
 
 @st.composite
+def case_tangent(draw, kK, kf):
+    K = draw(GB.body(kK))
+    return (draw(GB.tangent_in_face(K, kf)), K, "tangent-in-face")
+
+
+@st.composite
 def case_free(draw, kK, kf):
     K = draw(GB.body(kK))
     return (draw(gen.free_flat(kf)), K, "free")
@@ -198,6 +204,7 @@ def strata(tier):
                 for f2 in FEATS:
                     out.append(Stratum("%s-%s/%s-%s" % (kf, kK, f1, f2), "hyp", gen.with_variant(case_for(kK, kf, f1, f2)), n))
             out.append(Stratum("%s-%s/free" % (kf, kK), "hyp", gen.with_variant(case_free(kK, kf)), n * 2))
+            out.append(Stratum("%s-%s/tangent-in-face" % (kf, kK), "hyp", gen.with_variant(case_tangent(kK, kf)), n * 4))
         n = 40 if q else 1500
         for tr in PLANE_TRIPLES:
             out.append(Stratum("PL-%s/%s" % (kK, "-".join(tr)), "hyp", gen.with_variant(case_for(kK, "PL", *tr)), n))
